@@ -21,7 +21,7 @@ CASE_T_N = "C13.CorrN.case"
 HEADER_C = ("From Coq Require Import ZArith List.\n"
             "From TV Require Import Common.Harness C13.Model C13.Law C13.Corr C13.CorrC.")
 CASE_T_C = "C13.CorrC.case"
-PROPS = ["C13/Props.v", "C13/PropsClassOps.v", "C13/PropsClassOps2.v", "C13/PropsWave4.v"]
+PROPS = ["C13/Props.v", "C13/PropsClassOps.v", "C13/PropsClassOps2.v", "C13/PropsWave4.v", "C13/PropsWave6.v"]
 KIND = {0: "Python", 1: "Any", 2: "Disallow", 3: "ReadOnly", 4: "Constant", 5: "Event", 6: "Typed",
         7: "dunder", 8: "no-rule", 9: "add-remove"}
 WHAT = {1: "outcome-class", 2: "value-read", 3: "stored-afterwards (for remove_trait: a value of the removed trait or of its shadow stays behind)",
